@@ -8,6 +8,9 @@ package main
 //   C20  the datagrams written in any window never exceed burst + rate * window (one-sided, real time),
 //        with WaitToReply off excess replies are dropped, with it on they are delayed, never sent early;
 //   C01  the node survives and still serves.
+// Case kinds "recover", "recover-faults", "recover-outbound", "exact" (flood_recover.go) add the lower
+// bound of C08: after an over-budget burst (with refused, failed, blocked and cancelled sends) and
+// a measured quiet time, queries sent while the budget provably holds a token are each answered.
 
 import (
 	"crypto/ed25519"
@@ -32,7 +35,7 @@ import (
 func init() { engines["flood"] = floodEngine }
 
 type floodCfg struct {
-	kind   string // "" (burst), "shared" (two servers, one limiter), "delayed" (one reply held in the logger), "torn" (BEP 44 get racing put)
+	kind   string // "" (burst), "shared" (two servers, one limiter), "delayed" (one reply held in the logger), "torn" (BEP 44 get racing put), "recover*" / "exact" (flood_recover.go)
 	wait   bool
 	rate   float64 // per second; <0 = unlimited
 	burst  int
@@ -57,6 +60,8 @@ func floodCases(tier string) []floodCfg {
 	cs = append(cs, floodCfg{kind: "shared", rate: 0, burst: 9, n: 12, method: "mix"})
 	cs = append(cs, floodCfg{kind: "delayed", rate: 4, burst: 10, n: 16, method: "ping"})
 	cs = append(cs, floodCfg{kind: "torn", rate: -1, burst: 1, n: 40, method: "get-put"})
+	// the lower bound of the send budget: replies resume once the budget allows them (flood_recover.go)
+	cs = append(cs, floodRecoverCases(tier)...)
 	return cs
 }
 
@@ -98,6 +103,9 @@ func runFloodCase(seed uint64, idx int, fc floodCfg) {
 		return
 	case "torn":
 		runFloodTorn(seed, idx, fc)
+		return
+	case "recover", "recover-faults", "recover-outbound", "exact":
+		runFloodRecover(seed, idx, fc)
 		return
 	}
 	r := (&rng{s: seed ^ 0xf100d}).sub(idx)
